@@ -510,3 +510,84 @@ func ruleSerialDrain(c *core.Ctx, rule string, fn *ssa.Function) {
 	}
 	c.Check(bad == "", rule, key+"/serial", g.Pos(), "each mail is handed to the Receiver by a plain call in the receive loop; no other goroutine is started", bad)
 }
+
+// lookupHelper describes a private accessor that looks key up in a map field
+// under its own lock and hands back the result: v, ok := s.get(id).
+type lookupHelper struct {
+	call *ssa.Call     // the call in the caller
+	h    *ssa.Function // the accessor
+	lk   *ssa.Lookup   // the comma-ok lookup inside it
+	vi   int           // result index carrying the value found (-1 if none)
+	bi   int           // result index carrying ok
+}
+
+// isOK / isVal recognise, in the caller, the ok flag and the value found.
+func (l *lookupHelper) isOK(v ssa.Value) bool {
+	cr, idx := core.CallResult(core.Canon(v))
+	return cr == l.call && idx == l.bi
+}
+
+func (l *lookupHelper) isVal(v ssa.Value) bool {
+	cr, idx := core.CallResult(core.Canon(v))
+	return cr == l.call && idx == l.vi && l.vi >= 0
+}
+
+// findLookupHelper: fn calls a helper of its package that performs a comma-ok
+// lookup in field fld with one of its own parameters as the key and returns
+// the lookup's ok (true only when found) and optionally the value found.
+func findLookupHelper(c *core.Ctx, fn *ssa.Function, fld *types.Var) *lookupHelper {
+	for _, call := range core.Calls(fn) {
+		cv, ok := call.(*ssa.Call)
+		if !ok {
+			continue
+		}
+		h := core.StaticCallee(call)
+		if h == nil || h == fn || !inRepo(h) || len(h.Blocks) == 0 || h.Pkg != fn.Pkg {
+			continue
+		}
+		for _, lk := range mapLookups(h, fld) {
+			if !lk.CommaOk {
+				continue
+			}
+			if _, isParam := core.Canon(lk.Index).(*ssa.Parameter); !isParam {
+				continue
+			}
+			res := h.Signature.Results()
+			out := &lookupHelper{call: cv, h: h, lk: lk, vi: -1, bi: -1}
+			for i := 0; i < res.Len(); i++ {
+				allOK, allVal := true, true
+				for _, r := range core.Returns(h) {
+					rv := core.RetVal(r, i)
+					if !okOf(lk)(rv) {
+						if b, isConst := core.ConstBool(rv); !isConst || (b && !core.Guarded(h, r, core.IsTrue(okOf(lk)))) {
+							allOK = false
+						}
+					}
+					if !valueOfLookup(lk, rv) && !core.IsNilConst(core.Canon(rv)) {
+						allVal = false
+					}
+				}
+				if b, isB := res.At(i).Type().Underlying().(*types.Basic); isB && b.Kind() == types.Bool && allOK {
+					out.bi = i
+				} else if allVal {
+					out.vi = i
+				}
+			}
+			if out.bi >= 0 {
+				return out
+			}
+		}
+	}
+	return nil
+}
+
+// keyArg: the argument of the helper call that becomes the key of the lookup.
+func (l *lookupHelper) keyArg() ssa.Value {
+	p, _ := core.Canon(l.lk.Index).(*ssa.Parameter)
+	for i, hp := range l.h.Params {
+		if hp == p && i < len(l.call.Call.Args) {
+			return l.call.Call.Args[i]
+		}
+	}
+	return nil
+}
